@@ -8,14 +8,15 @@ CORRESPONDENCE = "Merge.mergeF/fieldOptsOverride ~ (*Config).Merge(..., FieldXVa
 RULE = ("pairs of dictionary trees (dictionaries nested 1-4 deep over a 5-key alphabet, lists and primitives at any key), a global "
         "policy, and 1-3 per-field options (4 kinds) whose dotted paths are present / absent in either tree and name dictionaries, "
         "lists or primitives, including paths that share their last component with settings at another depth; PathSep applied "
-        "before or after the Field option. Oracle: Spec.C01.merge with the policy of the longest configured path that is a "
+        "before or after the Field option; index and '*' segments over lists of objects, lists of lists and names below lists. Oracle: Spec.C01.merge with the policy of the longest configured path that is a "
         "prefix of the setting's path (Spec.C01.polOf). Non-trivial: some configured path exists in both trees. Distinct by "
         "(global policy, field policies, path depth, where the path's last component also occurs, conflict kinds).")
 TRUSTED_BASE = ["Lean 4 kernel", "extractor: configHandling enumeration order",
                 "Model/Merge.lean (fieldOptsOverride, fhNode, includeWildcard) transcribes merge.go/opts.go (differential check)",
                 "Spec.C01.merge/polOf: executable oracle", "correspondence harness"]
-ASSUMPTIONS = ["configured paths traverse dictionaries only (a '*' segment / list index semantics is existing tested behaviour and is "
-               "exercised only against the model, not the oracle)", "no '**' wildcard in generated options"]
+ASSUMPTIONS = ["the oracle reads a numeric path segment as that list index and '*' as every list index (merge_test.go's own reading); "
+               "option sets with a '**' wildcard, with a '*' and an index competing for one element, or with 'p' next to 'p.*.q' "
+               "(one tree slot for two meanings) are compared with the model only"]
 POLICIES = [None, "Replace", "ReplaceArr", "Append", "Prepend"]
 FIELD = ["FieldMerge", "FieldReplace", "FieldAppend", "FieldPrepend"]
 
@@ -70,6 +71,7 @@ def gen(rng, tier):
     n = 1500 if tier == "quick" else 12000
     yield from gen_index(rng.fork("index"), n // 3)
     yield from gen_index_directed(rng.fork("indexd"), n // 3)
+    yield from gen_through_lists(rng.fork("through"), n // 4)
     for _ in range(n):
         d = 2 + rng.below(3)
         a = dict_tree(rng, d)
@@ -191,6 +193,37 @@ def gen_index_directed(rng, n):
         opts.append(opt(rng.pick(FIELD), [".".join(path)]))
         yield {"k": "merge", "a": a, "optsA": [], "steps": [{"b": b, "opts": opts}], "_tag": "field-index-directed/" + (g or "default"),
                "_sig": "indexd|%s|%s|%s|%s" % (g, shape, seg, len(path)), "_nt": True}
+
+
+def gen_through_lists(rng, n):
+    """lists of lists and lists of objects below a configured path: an index path must not govern the same index of a list
+    nested in a later element, and a name path must not govern that name inside the elements of a list"""
+    def nums(k):
+        return A([U(rng.below(9)) for _ in range(k)])
+    def nest(depth, width):
+        return A([nums(1 + rng.below(3)) if depth <= 1 or rng.chance(0.5) else nest(depth - 1, width) for _ in range(width)])
+    for _ in range(n):
+        k1, k2 = rng.pick(KEYS), rng.pick(KEYS)
+        shape = rng.below(3)
+        w = 2 + rng.below(2)
+        if shape == 0:      # lists of lists of lists
+            a = M([(k1, nest(3, w))]); b = M([(k1, nest(3, w))])
+            path = [k1] + [str(rng.below(w)) for _ in range(1 + rng.below(2))]
+        elif shape == 1:    # a name below a list of objects
+            def objs():
+                return A([M([(k2, nums(1 + rng.below(2))), ("z", U(i))]) for i in range(w)])
+            a = M([(k1, objs())]); b = M([(k1, objs())])
+            path = rng.pick([[k1, k2], [k1, str(rng.below(w)), k2], [k1, "*", k2]])
+        else:               # an index below an object holding lists of lists
+            a = M([(k1, M([(k2, nest(2, w))]))]); b = M([(k1, M([(k2, nest(2, w))]))])
+            path = rng.pick([[k1, str(rng.below(w))], [k1, k2, str(rng.below(w))], [k1, k2, str(rng.below(w)), str(rng.below(w))]])
+        opts = [opt("PathSep", ".")]
+        g = rng.pick(POLICIES)
+        if g:
+            opts.append(opt(g))
+        opts.append(opt(rng.pick(FIELD), [".".join(path)]))
+        yield {"k": "merge", "a": a, "optsA": [], "steps": [{"b": b, "opts": opts}], "_tag": "field-through-lists/" + (g or "default"),
+               "_sig": "through|%s|%s|%s" % (g, shape, len(path)), "_nt": True}
 
 
 def nontrivial(case, impl):
